@@ -31,7 +31,7 @@ def floors(tier):
     q = tier == "quick"
     return {"twins": 60000 if q else 1500000, "text_changed_docs": 15000, "nontext_with_triggers": 15000, "mode.replacements": 10000, "mode.smartquotes": 10000,
             "mode.both": 10000, "sq.regex_checks": 20000, "sq.quotes_replaced": 20000, "autolink_text_checked": 1500, "escaped_full.twins": 10000,
-            "escaped_mixed.twins": 10000, "escaped_mixed.literal_quotes": 10000, "quotes_list_values": 10000, "entity_triggers.twins": 20000}
+            "escaped_mixed.twins": 10000, "escaped_mixed.literal_quotes": 10000, "quotes_list_values": 10000, "entity_triggers.twins": 20000, "wl.autolink_twin_text": 8000}
 
 
 def flat(ts, out):
@@ -208,6 +208,13 @@ def run(ctx):
         check_case(ctx, case)
         if k % 2999 == 0:
             ctx.sample(dict(case, src=src[:160]))
+    # an autolink next to the very same characters as ordinary text (inside emphasis, a link, after a code span): only the latter change
+    urls = ["http://a.b/'q'", "http://a.b/it's", "http://x.y/a--b...c", "m'n@o.pq", "http://e.f/(c)+-\"z\"", "ftp://g.h/'", "http://i.j/''k''"]
+    shapes = ["<{u}>\n*{u}*", "<{u}>`c`*{u}*", "*{u}* <{u}>", "<{u}> **{u}** <{u}>", "[{u}](/l) <{u}> _{u}_", "<{u}> {u}", "> <{u}>\n> *{u}*", "<{u}>![i](s)~~{u}~~", "<{u}><{u}> *{u}* *{u}*"]
+    for k in range(ctx.scale(12000, 300000)):
+        src = rng.choice(shapes).replace("{u}", rng.choice(urls)) + "\n"
+        ctx.count("wl.autolink_twin_text")
+        check_case(ctx, {"conf": rng.choice(presets[:3]), "mode": rng.choice(["replacements", "smartquotes", "both"]), "quotes": rng.choice(QUOTES), "src": src}, minimize=False)
     # escape immunity (1): fully escaped inputs are byte-identical
     for k in range(ctx.scale(20000, 500000)):
         t = "".join(rng.choice(DENSE[:30] + ["a", " ", "é"]) for _ in range(rng.randint(1, 8))).replace("\n", " ").strip() or "\""
